@@ -45,6 +45,8 @@ type Action struct {
 
 // Scenario is an explicit, replayable case.
 type Scenario struct {
+	// Limit, if non-zero, is the give-up limit observed in earlier scenarios of the batch.
+	Limit   int        `json:"limit,omitempty"`
 	Tasks   []TaskSpec `json:"tasks"`
 	Roots1  []int      `json:"roots1"`
 	Roots2  []int      `json:"roots2,omitempty"`
@@ -73,6 +75,9 @@ func (e *simExec) take() []*exec.Task {
 }
 
 type violation struct{ class, detail string }
+
+// globalGiveUp is the give-up limit observed first in this process (0: none yet).
+var globalGiveUp int
 
 // world is the state of one scenario run.
 type world struct {
@@ -207,6 +212,11 @@ type evalRun struct {
 // run plays a scenario. If gen is non-nil, actions are generated (and
 // recorded into sc.Actions); otherwise sc.Actions are replayed.
 func run(t *testing.T, sc *Scenario, gen *compkit.Rand, maxSteps int) (w *world) {
+	if sc.Limit != 0 {
+		globalGiveUp = sc.Limit
+	} else if gen != nil {
+		sc.Limit = globalGiveUp
+	}
 	w = &world{sc: sc, out: map[int]bool{}, everOK: map[int][]int{}, notOKat: map[int][]int{}, lastHand: map[int]int{},
 		consLost: map[int]int{}, fatal: map[int]int{}, probes: map[string]int{}, index: map[*exec.Task]int{}}
 	replay := sc.Actions
@@ -277,10 +287,11 @@ func run(t *testing.T, sc *Scenario, gen *compkit.Rand, maxSteps int) (w *world)
 						// With two evaluations sharing the task only the one
 						// that handed it out keeps the count, which the code
 						// documents as approximate; no exact limit is required.
-					} else if w.giveUpN == 0 {
-						w.giveUpN = n
-					} else if w.giveUpN != n {
-						w.violate("give-up-limit-varies", "tasks given up after %d and after %d consecutive losses", w.giveUpN, n)
+					} else if globalGiveUp == 0 {
+						globalGiveUp = n
+					} else if globalGiveUp != n {
+						// The limit is one number for every task, in every scenario of this process.
+						w.violate("give-up-limit-varies", "a task was given up after %d consecutive losses, another one (possibly in an earlier scenario) after %d", n, globalGiveUp)
 					}
 					w.fatal[i] = w.seq
 					w.probes["gave_up_after_losses"]++
